@@ -95,6 +95,11 @@ def step (st : St) (toks : List String) : St × String :=
   match toks with
   | ["new", o] => st.runOn (nat! o) (State.init cfg) true "-" (pure ())
   | ["fill", o, n, r, k] => st.runOn (nat! o) {} false k (newFillF cfg thr (nat! n) ((parseRef r).read []))
+  -- `Array::CreateCap(capacity)` = `Array(Data(capacity))`; `CreateCrt(count, creator)` = `CreateCap(count)` + `count` times
+  -- `AddBackNogrowCrt(creator)` (each creator call one copy construction), the local array is destroyed when a call throws:
+  -- the shape of `newFromF`
+  | ["newcap", o, n, k] => st.runOn (nat! o) {} false k (newCapF cfg (nat! n))
+  | "crt" :: o :: k :: xs => st.runOn (nat! o) {} false k (newFromF cfg thr xs.length (live xs))
   | ["cctor", d, s, f, k] =>
     match getSlot st (nat! s) with
     | some t => st.runOn (nat! d) {} false k (copyCtorF cfg thr t (f == "1"))
